@@ -39,11 +39,11 @@ type wResult struct {
 }
 
 type worker struct {
-	cmd    *exec.Cmd
-	in     io.WriteCloser
-	out    *bufio.Reader
-	log    string
-	errlog string
+	cmd     *exec.Cmd
+	in      io.WriteCloser
+	out     *bufio.Reader
+	log     string
+	errlog  string
 	prevRSS int64
 }
 
